@@ -1,6 +1,7 @@
 //! Worlds: one interpreter + monitor set per primitive.
 
 pub mod event;
+pub mod mpmc;
 pub mod mutex;
 pub mod oneshot;
 pub mod semaphore;
@@ -10,7 +11,7 @@ pub mod timer;
 use crate::common::World;
 
 pub fn all() -> Vec<&'static dyn World> {
-    vec![&mutex::MutexWorld, &semaphore::SemaphoreWorld, &event::EventWorld, &timer::TimerWorld, &oneshot::OneshotWorld, &state::StateWorld]
+    vec![&mutex::MutexWorld, &semaphore::SemaphoreWorld, &event::EventWorld, &timer::TimerWorld, &oneshot::OneshotWorld, &state::StateWorld, &mpmc::MpmcWorld]
 }
 
 pub fn by_name(name: &str) -> Option<&'static dyn World> {
